@@ -59,6 +59,10 @@ from vf.rt.harness import oracle, Bounded
 
 INT_LABELS = [5, 2, 9, 0, 7]                        # sorted order != order of first appearance
 STR_LABELS = ['s2', 'S10', 'subj-b', 'a', 's10']    # different lengths, upper / lower case
+BIG_LABELS = [2 ** 40 + 5, -3, 2 ** 33, 0, -(2 ** 35)]   # beyond 32 bit, negative, zero
+SUB_LABELS = ['s1', 's10', 's', '1', '10']          # labels that are substrings / single characters of other labels
+LABEL_TABLES = {'int': INT_LABELS, 'str': STR_LABELS, 'bigint': BIG_LABELS, 'substr': SUB_LABELS}
+TYPED = ('uint8', 'int16', 'int64', 'float32')      # case['values']: dtype of the source dissimilarities
 MAX_LEAVES = 400000
 MAX_FAILS = 25          # per case: stop enumerating after that many failing outcomes (the count is then a lower bound)
 
@@ -68,9 +72,10 @@ class _Chooser:
     """stands in for np.random.randint: replays `prefix`, continues with the lowest admissible number, records
     (number - low, high - low) of every number handed out"""
 
-    def __init__(self, prefix):
+    def __init__(self, prefix, modular=False):
         self.prefix = list(prefix)
         self.trace = []
+        self.modular = modular       # sampled outcomes: the scripted numbers are reduced modulo the admissible range
 
     def randint(self, low, high=None, size=None, dtype=int):
         if high is None:
@@ -85,6 +90,8 @@ class _Chooser:
         for _ in range(n):
             k = len(self.trace)
             v = self.prefix[k] if k < len(self.prefix) else 0
+            if self.modular:
+                v = int(v) % radix
             if v >= radix:
                 raise ValueError(f'scripted draw {v} outside range of size {radix}')
             self.trace.append((v, radix))
@@ -94,13 +101,14 @@ class _Chooser:
         return np.array(out, dtype=dtype).reshape(shape)
 
 
-def _outcomes(fn, script=None):
+def _outcomes(fn, script=None, modular=False):
     """run fn() once for every outcome of the numbers it draws through np.random.randint;
-    yields (result, script, probability).  np.random.randint is restored after every run."""
+    yields (result, script, probability).  np.random.randint is restored after every run.
+    With `script` only that one outcome is run (modular: a stream of numbers reduced modulo the range asked for)."""
     prefix = [] if script is None else list(script)
     n = 0
     while True:
-        ch = _Chooser(prefix)
+        ch = _Chooser(prefix, modular)
         saved = np.random.randint
         np.random.randint = ch.randint
         try:
@@ -125,39 +133,101 @@ def _outcomes(fn, script=None):
 
 
 # ---- inputs and the literal spec -------------------------------------------------------------------------------------
-def _sent(r, i, j, base=0):
+def _sent(r, i, j, base=0, wide=False):
     i, j = (i, j) if i < j else (j, i)
+    if wide:            # more than 9 conditions: two decimal digits per condition
+        return float(base + 100000 * (r + 1) + 100 * (i + 1) + (j + 1))
     return float(base + 1000 * (r + 1) + 10 * (i + 1) + (j + 1))
 
 
 def _wrap(values, container):
-    return np.array(values) if container == 'array' else list(values)
+    """container of one descriptor: 'list', 'tuple', 'array', 'nplist' (python list of numpy scalars / rows),
+    'array-object', 'array-<integer dtype>' (that dtype where all values are python ints, default dtype otherwise)"""
+    if container == 'list':
+        return list(values)
+    if container == 'tuple':
+        return tuple(values)
+    if container == 'array':
+        return np.array(values)
+    if container == 'nplist':
+        return list(np.array(values))
+    if container == 'array-object':
+        return np.array(values, dtype=object)
+    if container.startswith('array-'):
+        if all(isinstance(v, int) and not isinstance(v, bool) for v in values):
+            arr = np.array(values, dtype=container[6:])
+            if arr.tolist() != list(values):
+                raise ValueError(f'{values} do not fit into {container[6:]}')
+            return arr
+        return np.array(values)
+    raise ValueError(container)
 
 
-def _source(case, base=0, n_rdm=None):
-    """-> (RDMs, src) ; src = plain-python description of the source used by the spec"""
+def _source(case, base=0, n_rdm=None, keep_rg=False):
+    """-> (RDMs, src) ; src = plain-python description of the source used by the spec.
+    optional case keys: 'values' (None: float64 sentinels; a dtype of TYPED: small distinct integers stored in that dtype;
+    'tiny' / 'huge': sentinels * 1e-20 / * 1e12; 'zero-neg': distinct small values including 0 and negative ones;
+    'nan-source': one NaN entry per RDM), 'container', 'vector_desc', 'desc_order' ('group-first': the grouping descriptor is
+    the first key of the descriptor dict), 'rindex' / 'pindex' (user supplied 'index' descriptors)"""
     from rsatoolbox.rdm import RDMs
+    whole = n_rdm is None
     n_rdm = case['n_rdm'] if n_rdm is None else n_rdm
     n_cond = case['n_cond']
     cont = case.get('container', 'list')
+    kind = case.get('values')
+    wide = n_cond > 9
     pairs = [(i, j) for i in range(n_cond) for j in range(i + 1, n_cond)]
-    vec = np.array([[_sent(r, i, j, base) for (i, j) in pairs] for r in range(n_rdm)])
+
+    def value(r, k, i, j):
+        if kind is None:
+            return _sent(r, i, j, base, wide)
+        if kind == 'tiny':
+            return _sent(r, i, j, base, wide) * 1e-20
+        if kind == 'huge':
+            return _sent(r, i, j, base, wide) * 1e12
+        code = 1 + r * len(pairs) + k + base // 500          # small distinct integers
+        if kind == 'zero-neg':
+            return float(code - 3)                            # -2, -1, 0, 1, ... for the data (base 0)
+        if kind == 'nan-source':
+            return float('nan') if k == (r % len(pairs)) else float(code)
+        if kind in TYPED:
+            return code
+        raise ValueError(kind)
+
+    vals = [[value(r, k, i, j) for k, (i, j) in enumerate(pairs)] for r in range(n_rdm)]
+    if kind in TYPED:
+        vec = np.array(vals, dtype=kind)
+        if vec.tolist() != vals:
+            raise ValueError(f'values do not fit into {kind}')
+    else:
+        vec = np.array(vals, dtype=float)
+    mat = np.full((n_rdm, n_cond, n_cond), np.nan)            # the spec's table of source dissimilarities
+    for r in range(n_rdm):
+        for k, (i, j) in enumerate(pairs):
+            mat[r, i, j] = mat[r, j, i] = float(vec[r, k])
     rdesc = {'rid': list(range(n_rdm)), 'rname': ['R%d' % (7 - r) for r in range(n_rdm)]}
     pdesc = {'cid': list(range(n_cond)), 'cname': ['c%d' % ((3 * c + 1) % 7) for c in range(n_cond)]}
     if case.get('vector_desc'):
         # descriptors whose entries are vectors (coordinates): a 2-D array / list of lists, one row per item
         rdesc['rpos'] = [[float(r), float(-r)] for r in range(n_rdm)]
         pdesc['xy'] = [[100.0 + c, 200.0 + c] for c in range(n_cond)]
-    if case.get('rg') is not None and base == 0:
+    if case.get('rg') is not None and (base == 0 or keep_rg):
         rdesc['rg'] = list(case['rg'])
     if case.get('pg') is not None:
         pdesc['pg'] = list(case['pg'])
+    if case.get('rindex') is not None and whole:
+        rdesc['index'] = list(case['rindex'])
+    if case.get('pindex') is not None:
+        pdesc['index'] = list(case['pindex'])
+    if case.get('desc_order') == 'group-first':
+        rdesc = {k: rdesc[k] for k in sorted(rdesc, key=lambda k: k not in ('rg', 'index'))}
+        pdesc = {k: pdesc[k] for k in sorted(pdesc, key=lambda k: k not in ('pg', 'index'))}
     rdms = RDMs(vec.copy(), dissimilarity_measure='sentinel',
                 rdm_descriptors={k: _wrap(v, cont) for k, v in rdesc.items()},
                 pattern_descriptors={k: _wrap(v, cont) for k, v in pdesc.items()})
-    rdesc['index'] = list(range(n_rdm))
-    pdesc['index'] = list(range(n_cond))
-    return rdms, dict(n_rdm=n_rdm, n_cond=n_cond, rdesc=rdesc, pdesc=pdesc, base=base)
+    rdesc.setdefault('index', list(range(n_rdm)))
+    pdesc.setdefault('index', list(range(n_cond)))
+    return rdms, dict(n_rdm=n_rdm, n_cond=n_cond, rdesc=rdesc, pdesc=pdesc, base=base, mat=mat)
 
 
 def _members(labels, drawn):
@@ -215,8 +285,8 @@ def _check_sample(src, sample, exp_rows, exp_conds):
     rid = [int(x) for x in sample.rdm_descriptors['rid']]
     cid = [int(x) for x in sample.pattern_descriptors['cid']]
     mats = np.asarray(sample.get_matrices())
-    # expected entries, written down pair by pair (the formula of the sentinel, evaluated for all sample RDMs at once)
-    rid1 = np.array(rid, dtype=float) + 1.0
+    # expected entries, written down pair by pair (looked up in the table of source values for all sample RDMs at once)
+    rid_a = np.array(rid, dtype=int)
     exp_vec = np.empty((len(rid), m * (m - 1) // 2))
     exp_mat = np.zeros((len(rid), m, m))
     k = 0
@@ -226,7 +296,7 @@ def _check_sample(src, sample, exp_rows, exp_conds):
                 col = np.nan
             else:
                 lo, hi = min(cid[a], cid[b]), max(cid[a], cid[b])
-                col = src['base'] + 1000.0 * rid1 + 10.0 * (lo + 1) + (hi + 1)
+                col = src['mat'][rid_a, lo, hi]
             exp_vec[:, k] = col
             exp_mat[:, a, b] = col
             exp_mat[:, b, a] = col
@@ -239,17 +309,22 @@ def _check_sample(src, sample, exp_rows, exp_conds):
         for b in range(a + 1, m):
             for row, r in enumerate(rid):
                 same = cid[a] == cid[b]
-                want = np.nan if same else _sent(r, cid[a], cid[b], src['base'])
+                want = np.nan if same else src['mat'][r, cid[a], cid[b]]
                 for where, got in (('vector', vec[row, k]), ('matrix', mats[row, a, b]), ('matrix^T', mats[row, b, a])):
                     if same:
                         if not np.isnan(got):
                             return (f'{where} entry of sample RDM {row} (source RDM {r}) at positions ({a},{b}), both copies of '
                                     f'source condition {cid[a]}, is {got}, expected NaN; sample conditions {cid}')
-                    elif np.isnan(got) or got != want:
+                    elif not _eq(got, want):
                         return (f'{where} entry of sample RDM {row} (source RDM {r}) at positions ({a},{b}) = source conditions '
                                 f'({cid[a]},{cid[b]}) is {got}, expected the source value {want}; sample conditions {cid}')
             k += 1
     return 'sample differs from the expected entries (no single entry located)'
+
+
+def _eq(got, want):
+    """one entry: equal values, or both NaN (a source entry that is NaN already)"""
+    return bool(np.isnan(want)) if np.isnan(got) else bool(got == want)
 
 
 def _same(got, want):
@@ -261,7 +336,7 @@ def _same(got, want):
     return bool(np.array_equal(ng, nw) and np.array_equal(got[~ng], want[~nw]))
 
 
-def _check_pred_order(sample, pred_s, base):
+def _check_pred_order(sample, pred_s, psrc):
     """vector position k of the resampled prediction must be the prediction for the same two ORIGINAL conditions as
     vector position k of the sample"""
     cid = [int(x) for x in sample.pattern_descriptors['cid']]
@@ -280,9 +355,9 @@ def _check_pred_order(sample, pred_s, base):
                 if not np.isnan(got):
                     return (f'resampled prediction at pair {k} is {got}, the sample pairs two copies of condition {cid[a]} '
                             f'there (NaN expected); sample conditions {cid}')
-            elif np.isnan(got) or got != _sent(0, cid[a], cid[b], base):
+            elif not _eq(got, psrc['mat'][0, cid[a], cid[b]]):
                 return (f'resampled prediction at pair {k} is {got}, the sample holds source conditions ({cid[a]},{cid[b]}) '
-                        f'there, whose prediction is {_sent(0, cid[a], cid[b], base)}; sample conditions {cid}')
+                        f'there, whose prediction is {psrc["mat"][0, cid[a], cid[b]]}; sample conditions {cid}')
             k += 1
     return None
 
@@ -338,17 +413,44 @@ def _fmt(idx):
 
 
 def _prediction(case):
-    """model prediction living on the same conditions / descriptors as the data"""
+    """model prediction living on the same conditions / descriptors as the data (optionally in another container)"""
     from rsatoolbox.model import ModelFixed
-    pred, psrc = _source(case, base=50000, n_rdm=1)
+    pcase = case if case.get('pred_container') is None else dict(case, container=case['pred_container'])
+    pred, psrc = _source(pcase, base=50000, n_rdm=1)
     if case.get('pred') == 'model':
         pred = ModelFixed('m', pred).predict_rdm()
     return pred, psrc
 
 
-def _run_draws(case, fn_name):
+def _sampled_scripts(spec, n_draws):
+    """sizes too large for all outcomes: streams of scripted numbers (the chooser reduces them modulo the range asked for):
+    only the first group, only the last group, every group once in ascending / descending order, every group three times in
+    a row, and spec['n'] seeded random streams"""
+    length = 4 * n_draws + 8
+    rs = np.random.RandomState(spec['seed'])
+    out = [[0] * length, [-1] * length, list(range(length)), [-1 - k for k in range(length)], [k // 3 for k in range(length)]]
+    out += [rs.randint(0, 2 ** 31 - 1, size=length).tolist() for _ in range(spec['n'])]
+    return out
+
+
+def _recheck_held(held):
+    """a result of an earlier call that the caller still holds must still be what it was"""
+    if not held:
+        return None
+    h = held[0]
+    for name in ('R', 'P'):
+        if h[name] is not None and (len(h[name]) != len(h[name + '0']) or any(x != y for x, y in zip(h[name], h[name + '0']))):
+            return (f'the index array returned by an EARLIER call (draws {h["script"]}) was {h[name + "0"]} and is '
+                    f'{_fmt(h[name])} after the function was called again')
+    msg = _check_sample(h['src'], h['sample'], h['rows'], h['conds'])
+    if msg is not None:
+        return f'the sample returned by an EARLIER call (draws {h["script"]}) changed when the function was called again: {msg}'
+    return None
+
+
+def _enumerate(case, fn_name, rdms, src, pred, psrc, held):
+    """all outcomes of the draws (or case['script'] / the streams of case['sampled']) of one source object"""
     from rsatoolbox.inference import bootstrap_sample, bootstrap_sample_rdm, bootstrap_sample_pattern
-    rdms, src = _source(case)
     rby = 'rg' if case.get('rg') is not None else 'index'
     pby = 'pg' if case.get('pg') is not None else 'index'
     rlab, plab = src['rdesc'][rby], src['pdesc'][pby]
@@ -357,7 +459,6 @@ def _run_draws(case, fn_name):
         raise ValueError('default_args needs rg = pg = None')
     do_r = fn_name in ('bootstrap_sample', 'bootstrap_sample_rdm')
     do_p = fn_name in ('bootstrap_sample', 'bootstrap_sample_pattern')
-    pred, psrc = _prediction(case) if do_p else (None, None)
 
     def call():
         if fn_name == 'bootstrap_sample':
@@ -366,15 +467,11 @@ def _run_draws(case, fn_name):
             return bootstrap_sample_rdm(rdms) if default else bootstrap_sample_rdm(rdms, rby)
         return bootstrap_sample_pattern(rdms) if default else bootstrap_sample_pattern(rdms, pby)
 
-    tr = _Tally(rlab, 'RDM groups') if do_r else None
-    tp = _Tally(plab, 'condition groups') if do_p else None
-    fails, n = [], 0
-    for res, script, w in _outcomes(call, case.get('script')):
-        n += 1
+    def check(res):
+        """-> (message or None, what the caller now holds)"""
         if not isinstance(res, tuple) or len(res) != 1 + do_r + do_p:
-            fails.append((script, f'{fn_name} returned {type(res).__name__} of length '
-                                  f'{len(res) if isinstance(res, tuple) else "?"}'))
-            continue
+            return (f'{fn_name} returned {type(res).__name__} of length '
+                    f'{len(res) if isinstance(res, tuple) else "?"}'), None
         sample = res[0]
         R = res[1] if do_r else None
         P = res[-1] if do_p else None
@@ -383,27 +480,58 @@ def _run_draws(case, fn_name):
             msg = _check_idx(R, rlab, 'rdm_idx')
         if msg is None and do_p:
             msg = _check_idx(P, plab, 'pattern_idx')
-        if msg is None:
-            rows = _members(rlab, R) if do_r else list(range(src['n_rdm']))
-            conds = _members(plab, P) if do_p else list(range(src['n_cond']))
-            msg = _check_sample(src, sample, rows, conds)
-            if msg is not None:
-                msg = f'rdm_idx {_fmt(R)}, pattern_idx {_fmt(P)}: ' + msg
-        if msg is None and do_p:
-            pred_s = pred.subsample_pattern(pby, P)
-            msg = _check_pred_order(sample, pred_s, psrc['base'])
-            if msg is not None:
-                msg = f'prediction resampled with pattern_idx {_fmt(P)}: ' + msg
         if msg is not None:
-            fails.append((script, msg))
-            if len(fails) >= MAX_FAILS:
-                break
-            continue
-        if do_r:
-            tr.add(R, w)
+            return msg, None
+        rows = _members(rlab, R) if do_r else list(range(src['n_rdm']))
+        conds = _members(plab, P) if do_p else list(range(src['n_cond']))
+        msg = _check_sample(src, sample, rows, conds)
+        if msg is not None:
+            return f'rdm_idx {_fmt(R)}, pattern_idx {_fmt(P)}: ' + msg, None
         if do_p:
-            tp.add(P, w)
-    if fails or case.get('script') is not None:
+            pred_s = pred.subsample_pattern(pby, P)
+            msg = _check_pred_order(sample, pred_s, psrc)
+            if msg is not None:
+                return f'prediction resampled with pattern_idx {_fmt(P)}: ' + msg, None
+        return None, dict(src=src, sample=sample, rows=rows, conds=conds, R=R, P=P,
+                          R0=None if R is None else list(R), P0=None if P is None else list(P))
+
+    tr = _Tally(rlab, 'RDM groups') if do_r else None
+    tp = _Tally(plab, 'condition groups') if do_p else None
+    if case.get('script') is not None:
+        runs = [(case['script'], False)]
+    elif case.get('sampled') is not None:
+        n_draws = (len(_distinct(rlab)) if do_r else 0) + (len(_distinct(plab)) if do_p else 0)
+        runs = [(sc, True) for sc in _sampled_scripts(case['sampled'], n_draws)]
+    else:
+        runs = [(None, False)]
+    fails, n = [], 0
+    for script0, modular in runs:
+        for res, script, w in _outcomes(call, script0, modular):
+            n += 1
+            msg = _recheck_held(held) if case.get('held') else None
+            if msg is None:
+                msg, got = check(res)
+            if msg is None and case.get('twice'):
+                # the caller overwrites the values of the sample it got, then asks for the same draws again
+                got['sample'].dissimilarities[...] = 7
+                for res2, _, _ in _outcomes(call, script):
+                    msg, got = check(res2)
+                if msg is not None:
+                    msg = 'second call with the same draws, after the caller overwrote the values of the first sample: ' + msg
+            if msg is not None:
+                fails.append((script, msg))
+                if len(fails) >= MAX_FAILS:
+                    break
+                continue
+            if case.get('held'):
+                held[:] = [dict(got, script=script)]
+            if do_r:
+                tr.add(res[1], w)
+            if do_p:
+                tp.add(res[-1], w)
+        if len(fails) >= MAX_FAILS:
+            break
+    if fails or case.get('script') is not None or case.get('sampled') is not None:
         return _summary(n, fails)
     n_expected = 1
     for t in (tr, tp):
@@ -418,6 +546,48 @@ def _run_draws(case, fn_name):
             if msg:
                 return msg
     return None
+
+
+def _run_draws(case, fn_name):
+    """optional case keys for call sequences: 'held' (the sample and indices of the previous call are checked again after
+    every call), 'twice' (see _enumerate), 'then_other' = {'rg': .., 'pg': ..} (afterwards a second source object of the
+    same shape with other dissimilarities and these groupings goes through the same outcomes), 'then_relabel' =
+    {'rg': .., 'pg': ..} (afterwards the caller assigns these grouping descriptors on the FIRST object, in place)"""
+    do_p = fn_name in ('bootstrap_sample', 'bootstrap_sample_pattern')
+    rdms, src = _source(case)
+    pred, psrc = _prediction(case) if do_p else (None, None)
+    held = []
+    msg = _enumerate(case, fn_name, rdms, src, pred, psrc, held)
+    if msg is None and case.get('then_other') is not None:
+        other = dict(case, **case['then_other'])
+        rdms2, src2 = _source(other, base=70000, keep_rg=True)
+        pred2, psrc2 = _prediction(other) if do_p else (None, None)
+        msg = _enumerate(other, fn_name, rdms2, src2, pred2, psrc2, held)
+        if msg is not None:
+            msg = (f'second source object of the same shape (other dissimilarities, groupings {case["then_other"]}), after '
+                   f'all draws from the first: {msg}')
+    if msg is None and case.get('then_relabel') is not None:
+        new = dict(case, **case['then_relabel'])
+        cont = case.get('container', 'list')
+        for key in ('rg', 'pg'):
+            if case['then_relabel'].get(key) is None:
+                continue
+            if key == 'rg':
+                rdms.rdm_descriptors['rg'] = _wrap(new['rg'], cont)
+                src = dict(src, rdesc=dict(src['rdesc'], rg=list(new['rg'])))
+            else:
+                rdms.pattern_descriptors['pg'] = _wrap(new['pg'], cont)
+                src = dict(src, pdesc=dict(src['pdesc'], pg=list(new['pg'])))
+                if pred is not None:
+                    pred.pattern_descriptors['pg'] = _wrap(new['pg'], case.get('pred_container') or cont)
+                    psrc = dict(psrc, pdesc=dict(psrc['pdesc'], pg=list(new['pg'])))
+        held[:] = []     # (samples may share descriptor dicts with their source: what the CALLER assigns there is not C09's business)
+        msg = _enumerate(new, fn_name, rdms, src, pred, psrc, held)
+        if msg is not None:
+            msg = f'same object after the caller assigned the grouping descriptors {case["then_relabel"]} in place: {msg}'
+    if msg is None and case.get('held'):
+        msg = _recheck_held(held)
+    return msg
 
 
 @oracle('C09/rdm-draws')
@@ -442,6 +612,13 @@ def _as_value(vec, vtype):
         return tuple(vec)
     if vtype == 'array':
         return np.array(vec)
+    if vtype == 'nplist':                 # python list of numpy scalars
+        return list(np.array(vec))
+    if vtype.startswith('array-'):        # 'array-object', 'array-uint8', 'array-int32', ...
+        arr = np.array(vec, dtype=vtype[6:])
+        if arr.tolist() != list(vec):
+            raise ValueError(f'{vec} do not fit into {vtype[6:]}')
+        return arr
     if vtype == 'scalar':
         return vec[0]
     if vtype == 'np-scalar':
@@ -467,11 +644,27 @@ def orc_subsample(case):
     rdms, src = _source(case)
     by = 'rg' if case.get('rg') is not None else 'index'
     lab = src['rdesc'][by]
+    # case['other_source']: a second object of the same shape and descriptors with other dissimilarities gets the same calls
+    rdms2, src2 = _source(case, base=70000, keep_rg=True) if case.get('other_source') else (None, None)
     fails, n = [], 0
+    held = None
     for vec in _value_vectors(lab, case):
         n += 1
         sample = rdms.subsample(None if case.get('by_none') else by, _as_value(vec, case['vtype']))
-        msg = _check_sample(src, sample, _members(lab, vec), list(range(src['n_cond'])))
+        rows = _members(lab, vec)
+        msg = _check_sample(src, sample, rows, list(range(src['n_cond'])))
+        if msg is None and rdms2 is not None:
+            sample2 = rdms2.subsample(None if case.get('by_none') else by, _as_value(vec, case['vtype']))
+            msg = _check_sample(src2, sample2, rows, list(range(src['n_cond'])))
+            if msg is None:
+                msg = _check_sample(src, sample, rows, list(range(src['n_cond'])))
+                if msg is None and held is not None:
+                    msg = _check_sample(src, held[0], held[1], list(range(src['n_cond'])))
+                if msg:
+                    msg = 'sample held by the caller changed after later calls: ' + msg
+            else:
+                msg = 'second source object of the same shape, same values asked for: ' + msg
+            held = (sample, rows)
         if msg:
             fails.append((vec, msg))
             if len(fails) >= MAX_FAILS:
@@ -488,6 +681,7 @@ def orc_subsample_pattern(case):
     by = 'pg' if case.get('pg') is not None else 'index'
     lab = src['pdesc'][by]
     fails, n = [], 0
+    held = None
     for vec in _value_vectors(lab, case):
         conds = _members(lab, vec)
         if len(conds) < 2:
@@ -498,9 +692,18 @@ def orc_subsample_pattern(case):
         msg = _check_sample(src, sample, list(range(src['n_rdm'])), conds)
         if msg is None:
             pred_s = pred.subsample_pattern(None if case.get('by_none') else by, value)
-            msg = _check_pred_order(sample, pred_s, psrc['base'])
+            msg = _check_pred_order(sample, pred_s, psrc)
             if msg:
                 msg = 'prediction resampled with the same values: ' + msg
+            elif case.get('other_source'):
+                # call sequence: the sample is still right after the prediction (same shape, other values) was resampled,
+                # and so is the sample of the previous value vector
+                msg = _check_sample(src, sample, list(range(src['n_rdm'])), conds)
+                if msg is None and held is not None:
+                    msg = _check_sample(src, held[0], list(range(src['n_rdm'])), held[1])
+                if msg:
+                    msg = 'sample held by the caller changed after later calls: ' + msg
+                held = (sample, conds)
         if msg:
             fails.append((vec, msg))
             if len(fails) >= MAX_FAILS:
@@ -565,11 +768,122 @@ def _partitions(n):
 
 
 def _label(rgs, kind):
-    table = INT_LABELS if kind == 'int' else STR_LABELS
+    table = LABEL_TABLES[kind]
     return [table[g] for g in rgs]
 
 
+def _sweep_variants():
+    """dimension sweeps laid over the groupings: (name of the dimension, label kind, descriptor container, extra case keys)"""
+    out = []
+    for v in TYPED + ('tiny', 'huge', 'zero-neg', 'nan-source'):              # typed data, extreme units, zeros / negative
+        out.append((f'values-{v}', 'int', 'list', dict(values=v)))
+    out.append(('values-uint8', 'str', 'array', dict(values='uint8')))
+    out.append(('values-tiny', 'str', 'array', dict(values='tiny')))
+    for cont in ('tuple', 'nplist', 'array-uint8', 'array-int16', 'array-int32', 'array-object'):    # containers, typed labels
+        out.append((f'container-{cont}', 'int', cont, {}))
+    for cont in ('tuple', 'nplist', 'array-object'):
+        out.append((f'container-{cont}', 'str', cont, {}))
+    for kind in ('bigint', 'substr'):                                           # label values
+        for cont in ('list', 'array'):
+            out.append((f'labels-{kind}', kind, cont, {}))
+    out.append(('vector-valued-descriptors', 'int', 'list', dict(vector_desc=True)))
+    out.append(('vector-valued-descriptors', 'str', 'array', dict(vector_desc=True)))
+    out.append(('vector-valued-descriptors', 'int', 'array-object', dict(vector_desc=True)))
+    out.append(('descriptor-dict-order', 'str', 'list', dict(desc_order='group-first')))
+    out.append(('descriptor-dict-order', 'int', 'array', dict(desc_order='group-first', vector_desc=True)))
+    out.append(('prediction-other-container', 'int', 'array-uint8', dict(pred_container='list')))
+    out.append(('prediction-other-container', 'str', 'list', dict(pred_container='array-object')))
+    out.append(('call-sequence', 'int', 'list', dict(held=True, twice=True)))   # call sequences
+    out.append(('call-sequence', 'str', 'array', dict(held=True, twice=True, values='float32')))
+    out.append(('call-sequence', 'int', 'array', dict(held=True, other=True)))
+    out.append(('call-sequence', 'str', 'list', dict(held=True, other=True, relabel=True)))
+    out.append(('call-sequence', 'int', 'nplist', dict(relabel=True)))
+    return out
+
+
+def _direct_variants():
+    """sweeps of the direct calls: (name, label kind, descriptor container, value types, extra case keys)"""
+    out = []
+    for v in TYPED + ('tiny', 'huge', 'zero-neg', 'nan-source'):
+        out.append((f'values-{v}', 'int' if len(out) % 2 else 'str', 'list', ('list',), dict(values=v, other_source=True)))
+    out.append(('typed-values-asked-for', 'int', 'list', ('nplist', 'array-uint8', 'array-int32', 'array-object'), {}))
+    out.append(('typed-values-asked-for', 'int', 'array-uint8', ('list', 'array-int32', 'np-scalar', 'scalar'), {}))
+    out.append(('typed-values-asked-for', 'str', 'array', ('nplist', 'array-object'), {}))
+    out.append(('typed-values-asked-for', 'str', 'array-object', ('list', 'array', 'scalar', 'np-scalar'), {}))
+    out.append(('labels-bigint', 'bigint', 'list', ('list', 'array', 'array-int64', 'scalar', 'np-scalar'), {}))
+    out.append(('labels-bigint', 'bigint', 'array', ('tuple', 'nplist', 'scalar'), {}))
+    out.append(('labels-substr', 'substr', 'list', ('list', 'tuple', 'array', 'scalar', 'np-scalar'), {}))
+    out.append(('labels-substr', 'substr', 'array', ('list', 'array-object', 'scalar', 'np-scalar'), {}))
+    for cont in ('tuple', 'nplist'):
+        out.append((f'container-{cont}', 'int', cont, ('list', 'array', 'scalar'), {}))
+        out.append((f'container-{cont}', 'str', cont, ('tuple', 'np-scalar'), {}))
+    out.append(('vector-valued-descriptors', 'int', 'array', ('list', 'scalar'), dict(vector_desc=True, desc_order='group-first')))
+    out.append(('vector-valued-descriptors', 'str', 'list', ('array',), dict(vector_desc=True)))
+    out.append(('call-sequence', 'int', 'array', ('list', 'array'), dict(other_source=True)))
+    out.append(('call-sequence', 'str', 'list', ('tuple', 'scalar'), dict(other_source=True)))
+    return out
+
+
+def _key(variant):
+    """the few variants that the quick tier also runs at the larger of its sizes"""
+    name, kind, cont, extra = variant
+    return ((name in ('values-uint8', 'values-tiny', 'values-zero-neg') and kind == 'int') or (name, cont) == ('labels-bigint', 'array')
+            or (name, kind) == ('container-tuple', 'str') or (name == 'call-sequence' and extra.get('relabel') and extra.get('other')))
+
+
+def _sweep_case(base, rgs, pgs, kind, extra):
+    """case of one sweep variant; 'other' / 'relabel' are turned into the groupings of the later phases: the reversed label
+    lists for the second object, the labels shifted by one place in the label table for the in-place assignment"""
+    extra = dict(extra)
+    other, relabel = extra.pop('other', False), extra.pop('relabel', False)
+    case = dict(base, **extra)
+    table = LABEL_TABLES[kind]
+    if other:
+        case['then_other'] = dict(rg=None if rgs is None else _label(rgs[::-1], kind),
+                                  pg=None if pgs is None else _label(pgs[::-1], kind))
+    if relabel:
+        case['then_relabel'] = dict(rg=None if rgs is None else [table[(g + 1) % len(table)] for g in rgs[1:] + rgs[:1]],
+                                    pg=None if pgs is None else [table[(g + 1) % len(table)] for g in pgs[1:] + pgs[:1]])
+    return case
+
+
+def _design(n, style):
+    """groupings of n items for the larger sizes"""
+    if style == 'unique':
+        return list(range(n))
+    if style == 'interleaved':            # a b c a b c ..., group sizes differ when n % 3 != 0
+        return [i % 3 for i in range(n)]
+    if style == 'runs':                   # a b c a b c b | a b c ...: repeated, not contiguous, unbalanced
+        return [1 if i % 7 == 6 else (i % 7) % 3 for i in range(n)]
+    if style == 'blocks':                 # contiguous blocks of 1, 2, 3, ... items
+        out, g = [], 0
+        while len(out) < n:
+            out += [g] * (g + 1)
+            g += 1
+        return out[:n]
+    if style == 'one-big':
+        return [0] * (n - 1) + [1]
+    raise ValueError(style)
+
+
+def _design_label(gs, kind):
+    """labels for up to 31 groups; order of first appearance != sorted order, negative ints, 'g10' < 'g3' as strings"""
+    code = [(7 * g + 3) % 31 for g in gs]
+    return [3 * c - 20 for c in code] if kind == 'int' else ['g%d' % c for c in code]
+
+
 KINDS = [('int', 'list'), ('int', 'array'), ('str', 'list'), ('str', 'array')]
+USER_INDEX = [13, 11, 14, 18, 16]       # an 'index' descriptor that is not 0..n-1 (as left by subset_pattern, or set by the user)
+ONE_BASED = [1, 2, 3, 4, 5]
+DIRECT_NOTE = ('dimension sweeps (source values typed / scaled / with 0, negative, NaN entries; labels beyond 32 bit / substrings of '
+               'each other; tuple / numpy-scalar-list / typed / object-array descriptors; vector-valued descriptors; user supplied '
+               'index; a second object of the same shape gets the same calls and earlier samples are re-checked)')
+SWEEP_NOTE = ('dimension sweeps (source values stored as uint8 / int16 / int64 / float32, scaled by 1e-20 / 1e12, containing 0 and '
+              'negative values, containing NaN; descriptors as tuple / list of numpy scalars / uint8, int16, int32, object arrays; '
+              'labels beyond 32 bit / substrings of each other; vector-valued descriptors beside the grouping; grouping descriptor '
+              'first in the dict; user supplied index descriptors; prediction stored in another container; call sequences: '
+              'earlier results re-checked after every call, same draws again after the caller overwrote the sample, a second '
+              'object of the same shape, grouping re-assigned in place)')
 
 
 def _shape_class(rgs):
@@ -585,8 +899,11 @@ def tier_c(run, thorough):
     # ---- bootstrap_sample_rdm -----------------------------------------------------------------------------------------
     bd = Bounded(run, 'C09/rdm-draws', 'C09/bootstrap_sample_rdm/oracle/faithful-group-resample',
                  'ALL outcomes of the draws (np.random.randint scripted) for ALL groupings (set partitions) of n_rdm 1..4 RDMs, '
-                 'n_cond in %s; int / str group labels in list / array descriptors; default index descriptor'
-                 % ('2..5' if thorough else '{2, 5}'), exhaustive=True, function='bootstrap_sample_rdm')
+                 'n_cond in %s; int / str group labels in list / array descriptors; default index descriptor; %s for ALL '
+                 'groupings of n_rdm %s, n_cond %s'
+                 % ('2..5' if thorough else '{2, 5}', SWEEP_NOTE, '3..4' if thorough else '3 (six of the sweeps: also 4)',
+                    '{2, 4}' if thorough else '3'),
+                 exhaustive=True, function='bootstrap_sample_rdm')
     for n_rdm in range(1, 5):
         for n_cond in (range(2, 6) if thorough else (2, 5)):
             for rgs in _partitions(n_rdm):
@@ -599,6 +916,19 @@ def tier_c(run, thorough):
                 if n_rdm >= 2:      # descriptors whose entries are vectors (coordinates per RDM / condition)
                     case = dict(n_rdm=n_rdm, n_cond=n_cond, rg=None, pg=None, container=cont, default_args=True, vector_desc=True)
                     bd.check(orc_rdm, case, f'default-index,{cont},vector-valued-descriptors', function='bootstrap_sample_rdm')
+    variants = _sweep_variants()
+    for n_rdm, n_cond in ([(3, 2), (3, 4), (4, 2), (4, 4)] if thorough else [(3, 3), (4, 3)]):
+        for name, kind, cont, extra in variants:
+            if name == 'prediction-other-container' or (not thorough and n_rdm == 4 and not _key((name, kind, cont, extra))):
+                continue
+            for rgs in _partitions(n_rdm):
+                case = _sweep_case(dict(n_rdm=n_rdm, n_cond=n_cond, rg=_label(rgs, kind), pg=None, container=cont),
+                                   rgs, None, kind, extra)
+                bd.check(orc_rdm, case, f'{_shape_class(rgs)},{kind},{cont},{name}', function='bootstrap_sample_rdm')
+        for cont, rindex in (('list', USER_INDEX), ('array', USER_INDEX), ('tuple', ONE_BASED), ('array-int16', USER_INDEX)):
+            case = dict(n_rdm=n_rdm, n_cond=n_cond, rg=None, pg=None, container=cont, default_args=True,
+                        rindex=rindex[:n_rdm], pindex=USER_INDEX[:n_cond], held=True)
+            bd.check(orc_rdm, case, f'default-index,{cont},user-supplied-index', function='bootstrap_sample_rdm')
     bd.done()
     bds.append(bd)
 
@@ -609,8 +939,10 @@ def tier_c(run, thorough):
     bd = Bounded(run, 'C09/pattern-draws', 'C09/bootstrap_sample_pattern/oracle/faithful-group-resample',
                  'ALL outcomes of the draws (np.random.randint scripted, incl. every group drawn 3, 4, 5 times) for ALL groupings '
                  '(set partitions) of n_cond 2..5 conditions; n_rdm 1..4 x int / str group labels x list / array descriptors'
-                 '%s; default index descriptor; prediction = RDMs / ModelFixed.predict_rdm'
-                 % ('' if thorough else ' for n_cond <= 4, for n_cond = 5 the combinations (1, int, list), (3, str, array)'),
+                 '%s; default index descriptor; prediction = RDMs / ModelFixed.predict_rdm; %s for ALL groupings of %s'
+                 % ('' if thorough else ' for n_cond <= 4, for n_cond = 5 the combinations (1, int, list), (3, str, array)',
+                    SWEEP_NOTE, 'n_cond 3..5, n_rdm 2 (n_cond 4 also n_rdm 3)' if thorough
+                    else 'n_cond 3, n_rdm 2 (six of the sweeps: also n_cond 4)'),
                  exhaustive=True, function='bootstrap_sample_pattern')
     for n_cond in range(2, 6):
         combos = five if n_cond == 5 else full
@@ -625,6 +957,23 @@ def tier_c(run, thorough):
             bd.check(orc_pattern, case, f'default-index,{cont}', function='bootstrap_sample_pattern')
             if n_cond >= 3:
                 bd.check(orc_pattern, dict(case, vector_desc=True), f'default-index,{cont},vector-valued-descriptors',
+                         function='bootstrap_sample_pattern')
+    for n_rdm, n_cond in ([(2, 3), (2, 4), (3, 4), (2, 5)] if thorough else [(2, 3), (2, 4)]):
+        for k, (name, kind, cont, extra) in enumerate(variants):
+            if not thorough and n_cond == 4 and not _key((name, kind, cont, extra)):
+                continue
+            for rgs in _partitions(n_cond):
+                case = _sweep_case(dict(n_rdm=n_rdm, n_cond=n_cond, rg=None, pg=_label(rgs, kind), container=cont,
+                                        pred='model' if k % 2 else 'rdms'), None, rgs, kind, extra)
+                bd.check(orc_pattern, case, f'{_shape_class(rgs)},{kind},{cont},{name}', function='bootstrap_sample_pattern')
+        for cont, pindex in (('list', USER_INDEX), ('array', USER_INDEX), ('tuple', ONE_BASED), ('array-int16', USER_INDEX)):
+            case = dict(n_rdm=n_rdm, n_cond=n_cond, rg=None, pg=None, container=cont, default_args=True,
+                        rindex=USER_INDEX[:n_rdm], pindex=pindex[:n_cond], held=True, pred='rdms')
+            bd.check(orc_pattern, case, f'default-index,{cont},user-supplied-index', function='bootstrap_sample_pattern')
+            if False:  # pending triage: default-index,user-supplied-index,prediction-of-ModelFixed
+                # ModelFixed.__init__ overwrites the 'index' pattern descriptor of the RDMs it is given with 0..n-1, so the
+                # prediction resampled with the returned (user) index values has no / other conditions than the sample
+                bd.check(orc_pattern, dict(case, pred='model'), 'default-index,user-supplied-index,prediction-of-ModelFixed',
                          function='bootstrap_sample_pattern')
     bd.done()
     bds.append(bd)
@@ -641,7 +990,9 @@ def tier_c(run, thorough):
         dom = 'n_rdm 1..3 x n_cond 2..3 (int labels / list and str labels / array), n_rdm 1..3 x n_cond 4 (int labels / list)'
     bd = Bounded(run, 'C09/joint-draws', 'C09/bootstrap_sample/oracle/faithful-group-resample',
                  'ALL joint outcomes of the RDM and condition draws for ALL pairs of groupings (set partitions), %s; '
-                 'default index descriptors' % dom, exhaustive=True, function='bootstrap_sample')
+                 'default index descriptors; %s for ALL pairs of groupings of n_rdm x n_cond = %s'
+                 % (dom, SWEEP_NOTE, '2 x 3, 2 x 4, 3 x 3' if thorough else '2 x 2 (six of the sweeps: also 2 x 3)'),
+                 exhaustive=True, function='bootstrap_sample')
     for n_rdm, n_cond, kinds in shapes:
         for rgs in _partitions(n_rdm):
             for pgs in _partitions(n_cond):
@@ -652,6 +1003,23 @@ def tier_c(run, thorough):
                              function='bootstrap_sample')
         case = dict(n_rdm=n_rdm, n_cond=n_cond, rg=None, pg=None, container='list', default_args=True, pred='model')
         bd.check(orc_joint, case, 'default-index,list', function='bootstrap_sample')
+    for n_rdm, n_cond in ([(2, 3), (2, 4), (3, 3)] if thorough else [(2, 2), (2, 3)]):
+        for name, kind, cont, extra in variants:
+            if not thorough and n_cond == 3 and not _key((name, kind, cont, extra)):
+                continue
+            for rgs in _partitions(n_rdm):
+                for pgs in _partitions(n_cond):
+                    case = _sweep_case(dict(n_rdm=n_rdm, n_cond=n_cond, rg=_label(rgs, kind), pg=_label(pgs, kind),
+                                            container=cont, pred='rdms'), rgs, pgs, kind, extra)
+                    bd.check(orc_joint, case, f'rdm:{_shape_class(rgs)},pattern:{_shape_class(pgs)},{kind},{cont},{name}',
+                             function='bootstrap_sample')
+        for cont, index in (('list', USER_INDEX), ('array', USER_INDEX), ('tuple', ONE_BASED), ('array-int16', USER_INDEX)):
+            case = dict(n_rdm=n_rdm, n_cond=n_cond, rg=None, pg=None, container=cont, default_args=True,
+                        rindex=index[1:n_rdm + 1], pindex=index[:n_cond], held=True, pred='rdms')
+            bd.check(orc_joint, case, f'default-index,{cont},user-supplied-index', function='bootstrap_sample')
+            if False:  # pending triage: default-index,user-supplied-index,prediction-of-ModelFixed
+                bd.check(orc_joint, dict(case, pred='model'), 'default-index,user-supplied-index,prediction-of-ModelFixed',
+                         function='bootstrap_sample')
     bd.done()
     bds.append(bd)
 
@@ -660,7 +1028,9 @@ def tier_c(run, thorough):
     bd = Bounded(run, 'C09/subsample', 'C09/RDMs.subsample/oracle/faithful-group-resample',
                  'ALL vectors of group values of length 1..max(3, #groups)%s passed as list / tuple / array, every single value '
                  'as python / numpy scalar; ALL groupings of n_rdm 1..4, n_cond in {2, 4}; int / str labels in list / array '
-                 'descriptors; by = None on the index' % (' + 1' if thorough else ''),
+                 'descriptors; by = None on the index; %s, values also as list of numpy scalars / object, uint8, int32, int64 arrays, '
+                 'for ALL groupings of n_rdm %s, n_cond 3, vectors of length 1..3'
+                 % (' + 1' if thorough else '', DIRECT_NOTE, '3..4' if thorough else '3'),
                  exhaustive=True, function='RDMs.subsample')
     for n_rdm in range(1, 5):
         for n_cond in (2, 4):
@@ -679,6 +1049,19 @@ def tier_c(run, thorough):
                 case = dict(n_rdm=n_rdm, n_cond=n_cond, rg=None, pg=None, container='list', by_none=True, vtype=vt,
                             lengths=list(range(1, max(3, n_rdm) + 1)))
                 bd.check(orc_subsample, case, f'by-none,value-{vt}', function='RDMs.subsample')
+    direct = _direct_variants()
+    for n_rdm in ((3, 4) if thorough else (3,)):
+        for rgs in _partitions(n_rdm):
+            for name, kind, cont, vts, extra in direct:
+                base = dict(n_rdm=n_rdm, n_cond=3, rg=_label(rgs, kind), pg=None, container=cont, **extra)
+                for vt in vts:
+                    case = dict(base, vtype=vt) if 'scalar' in vt else dict(base, vtype=vt, lengths=[1, 2, 3])
+                    bd.check(orc_subsample, case, f'{_shape_class(rgs)},{kind},{cont},value-{vt},{name}', function='RDMs.subsample')
+        for cont, rindex in (('list', USER_INDEX), ('array-int16', USER_INDEX), ('tuple', ONE_BASED)):
+            for vt in ('list', 'array', 'scalar'):
+                case = dict(n_rdm=n_rdm, n_cond=3, rg=None, pg=None, container=cont, by_none=True, vtype=vt, lengths=[1, 2, 3],
+                            rindex=rindex[:n_rdm], other_source=True)
+                bd.check(orc_subsample, case, f'by-none,{cont},value-{vt},user-supplied-index', function='RDMs.subsample')
     bd.done()
     bds.append(bd)
 
@@ -691,7 +1074,9 @@ def tier_c(run, thorough):
     bd = Bounded(run, 'C09/subsample-pattern', 'C09/RDMs.subsample_pattern/oracle/faithful-group-resample',
                  'ALL vectors of group values (selecting >= 2 conditions) of length %s, passed as list / tuple / array, every '
                  'single value as python / numpy scalar; ALL groupings (set partitions) of n_cond 2..5, n_rdm in %s; int / str '
-                 'labels in list / array descriptors%s; by = None on the index' % dom,
+                 'labels in list / array descriptors%s; by = None on the index; %s, values also as list of numpy scalars / object, '
+                 'uint8, int32, int64 arrays, for ALL groupings of n_cond %s, n_rdm 2, vectors of length 1..3'
+                 % (dom + (DIRECT_NOTE, '3..4' if thorough else '3 (labels beyond 32 bit and substring labels: also 4)')),
                  exhaustive=True, function='RDMs.subsample_pattern')
     for n_cond in range(2, 6):
         for n_rdm in ((1, 3) if thorough else (2,)):
@@ -717,6 +1102,51 @@ def tier_c(run, thorough):
                 case = dict(n_rdm=n_rdm, n_cond=n_cond, rg=None, pg=None, container='list', by_none=True, vtype=vt,
                             lengths=list(range(1, 4)), pred='rdms')
                 bd.check(orc_subsample_pattern, case, f'by-none,value-{vt}', function='RDMs.subsample_pattern')
+    for n_cond in (3, 4):
+        for rgs in _partitions(n_cond):
+            for k, (name, kind, cont, vts, extra) in enumerate(direct):
+                if not thorough and n_cond == 4 and not name.startswith('labels-'):
+                    continue
+                base = dict(n_rdm=2, n_cond=n_cond, rg=None, pg=_label(rgs, kind), container=cont, pred='model' if k % 2 else 'rdms',
+                            **extra)
+                for vt in vts:
+                    case = dict(base, vtype=vt) if 'scalar' in vt else dict(base, vtype=vt, lengths=[1, 2, 3])
+                    bd.check(orc_subsample_pattern, case, f'{_shape_class(rgs)},{kind},{cont},value-{vt},{name}',
+                             function='RDMs.subsample_pattern')
+        for cont, pindex in (('list', USER_INDEX), ('array-int16', USER_INDEX), ('tuple', ONE_BASED)):
+            for vt in ('list', 'array', 'scalar'):
+                case = dict(n_rdm=2, n_cond=n_cond, rg=None, pg=None, container=cont, by_none=True, vtype=vt, lengths=[1, 2, 3],
+                            pindex=pindex[:n_cond], other_source=True, pred='rdms')
+                bd.check(orc_subsample_pattern, case, f'by-none,{cont},value-{vt},user-supplied-index',
+                         function='RDMs.subsample_pattern')
+    bd.done()
+    bds.append(bd)
+
+    # ---- larger sizes: selected and seeded outcomes only ----------------------------------------------------------------
+    n_streams = 40 if thorough else 6
+    shapes = [(7, 6), (12, 13)] + ([(8, 8), (30, 20), (5, 40)] if thorough else [])
+    bd = Bounded(run, 'C09/larger-sizes-sampled', 'C09/bootstrap_sample/oracle/faithful-group-resample-larger-sizes',
+                 'NOT all outcomes: per case 5 constructed outcomes (only the first / only the last group, every group once ascending '
+                 '/ descending, every group three times in a row) + %d seeded random outcomes of the scripted draws; n_rdm x n_cond in '
+                 '%s; groupings: unique, a b c a b c .. (sizes differ by the remainder), a b c a b c b runs, blocks of 1, 2, 3, .. '
+                 'items, all but one item in one group; int labels / list and str labels / array descriptors; earlier results '
+                 're-checked after every call; same clauses as the exhaustive domains except the two over the whole outcome space'
+                 % (n_streams, shapes), exhaustive=False, function='bootstrap_sample')
+    styles = ('unique', 'interleaved', 'runs', 'blocks', 'one-big')
+    for n_rdm, n_cond in shapes:
+        for k, style in enumerate(styles):
+            for kind, cont in (('int', 'list'), ('str', 'array')):
+                rgs, pgs = _design(n_rdm, style), _design(n_cond, styles[(k + 2) % len(styles)])
+                case = dict(n_rdm=n_rdm, n_cond=n_cond, rg=_design_label(rgs, kind), pg=_design_label(pgs, kind), container=cont,
+                            pred='model' if kind == 'int' else 'rdms', held=True, sampled=dict(seed=9000 + k, n=n_streams))
+                ic = f'larger-sizes,{kind},{cont}'
+                bd.check(orc_joint, case, f'rdm:{style},pattern:{styles[(k + 2) % len(styles)]},{ic}', function='bootstrap_sample')
+                bd.check(orc_rdm, dict(case, pg=None), f'{style},{ic}', function='bootstrap_sample_rdm')
+                bd.check(orc_pattern, dict(case, rg=None, pg=_design_label(_design(n_cond, style), kind)), f'{style},{ic}',
+                         function='bootstrap_sample_pattern')
+        case = dict(n_rdm=n_rdm, n_cond=n_cond, rg=None, pg=None, container='array', default_args=True, pred='rdms', held=True,
+                    sampled=dict(seed=9100, n=n_streams))
+        bd.check(orc_joint, case, 'default-index,larger-sizes', function='bootstrap_sample')
     bd.done()
     bds.append(bd)
 
